@@ -170,6 +170,20 @@ func (t *dateWithUTCTime) UnmarshalText(b []byte) error {
 	return nil
 }
 
+// MarshalXMLAttr omits the attribute for the zero time: a time-range may
+// have only a start or only an end, and omitempty has no effect on struct
+// values.
+func (t *dateWithUTCTime) MarshalXMLAttr(name xml.Name) (xml.Attr, error) {
+	if time.Time(*t).IsZero() {
+		return xml.Attr{}, nil
+	}
+	b, err := t.MarshalText()
+	if err != nil {
+		return xml.Attr{}, err
+	}
+	return xml.Attr{Name: name, Value: string(b)}, nil
+}
+
 func (t *dateWithUTCTime) MarshalText() ([]byte, error) {
 	s := time.Time(*t).UTC().Format(dateWithUTCTimeLayout)
 	return []byte(s), nil
